@@ -1922,6 +1922,14 @@ stream_decoder_mt_memconfig(void *coder_ptr, uint64_t *memusage,
 	if (*memusage < LZMA_MEMUSAGE_BASE)
 		*memusage = LZMA_MEMUSAGE_BASE;
 
+	// If decoding has stopped to LZMA_MEMLIMIT_ERROR, the filter chain
+	// of the next Block needs more memory than memlimit_stop allows.
+	// Report that amount so that the application knows how high the
+	// limit has to be to continue (in single-threaded mode).
+	if (coder->sequence == SEQ_BLOCK_INIT
+			&& *memusage < coder->mem_next_filters)
+		*memusage = coder->mem_next_filters;
+
 	*old_memlimit = coder->memlimit_stop;
 
 	if (new_memlimit != 0) {
